@@ -465,11 +465,11 @@ def Expr.flatClosed : Expr → Prop
   | .app n x _ _ _ _ => n.flatClosed ∧ x.flatClosed
   | .wth .. => True
   | .asrt .. => True
-  | .sel .. => True
-  | .selOr .. => True
-  | .lam .. => True
-  | .un .. => True
-  | .bin .. => True
+  | .sel e _ _ _ _ _ => e.flatClosed
+  | .selOr e _ _ _ d _ _ _ _ => e.flatClosed ∧ d.flatClosed
+  | .lam _ _ _ _ body _ _ => body.flatClosed
+  | .un _ e _ _ _ _ => e.flatClosed
+  | .bin _ l r _ _ _ _ => l.flatClosed ∧ r.flatClosed
 def allFlatClosed : List Expr → Prop
   | [] => True
   | e :: rest => e.flatClosed ∧ allFlatClosed rest
@@ -613,12 +613,14 @@ theorem cst_flat : (c : Cst) → c.wf = true → ∀ (e : Expr), c.parse = .ok e
         split
         · unfold withFromCst; trivial
         · unfold asrtFromCst; trivial
-  | .sel e c1 g1 gd attrs, _, ex, hp => by
+  | .sel e c1 g1 gd attrs, hwf, ex, hp => by
+    simp only [Cst.wf, Bool.and_eq_true] at hwf
     simp only [Cst.parse] at hp
     cases hpe : e.parse with
     | error err => rw [hpe] at hp; cases hp
-    | ok ee => rw [hpe] at hp; injection hp with hp; subst hp; trivial
-  | .selOr e c1 g1 gd attrs c2 g2 g3 d, _, ex, hp => by
+    | ok ee => rw [hpe] at hp; injection hp with hp; subst hp; exact cst_flat e hwf.1.1.1.1.1 ee hpe
+  | .selOr e c1 g1 gd attrs c2 g2 g3 d, hwf, ex, hp => by
+    simp only [Cst.wf, Bool.and_eq_true] at hwf
     simp only [Cst.parse] at hp
     cases hpe : e.parse with
     | error err => rw [hpe] at hp; cases hp
@@ -626,18 +628,29 @@ theorem cst_flat : (c : Cst) → c.wf = true → ∀ (e : Expr), c.parse = .ok e
       rw [hpe] at hp
       cases hpd : d.parse with
       | error err => rw [hpd] at hp; cases hp
-      | ok de => rw [hpd] at hp; injection hp with hp; subst hp; trivial
-  | .lam n c1 g1 c2 g2 b, _, ex, hp => by
+      | ok de =>
+        rw [hpd] at hp; injection hp with hp; subst hp
+        exact ⟨cst_flat e hwf.1.1.1.1.1.1.1.1.1 ee hpe, cst_flat d hwf.2 de hpd⟩
+  | .lam n c1 g1 c2 g2 b, hwf, ex, hp => by
+    simp only [Cst.wf, Bool.and_eq_true] at hwf
     simp only [Cst.parse] at hp
     cases hpb : b.parse with
     | error err => rw [hpb] at hp; cases hp
-    | ok be => rw [hpb] at hp; injection hp with hp; subst hp; trivial
-  | .un op c g e, _, ex, hp => by
+    | ok be =>
+      rw [hpb] at hp; injection hp with hp; subst hp
+      unfold lamFromCst
+      show Expr.flatClosed (if _ then be else _)
+      split
+      · exact cst_flat b hwf.2 be hpb
+      · exact flatClosed_setBefore (cst_flat b hwf.2 be hpb) _
+  | .un op c g e, hwf, ex, hp => by
+    simp only [Cst.wf, Bool.and_eq_true] at hwf
     simp only [Cst.parse] at hp
     cases hpe : e.parse with
     | error err => rw [hpe] at hp; cases hp
-    | ok ee => rw [hpe] at hp; injection hp with hp; subst hp; trivial
-  | .bin l c1 g1 op c2 g2 r, _, ex, hp => by
+    | ok ee => rw [hpe] at hp; injection hp with hp; subst hp; exact cst_flat e hwf.2 ee hpe
+  | .bin l c1 g1 op c2 g2 r, hwf, ex, hp => by
+    simp only [Cst.wf, Bool.and_eq_true] at hwf
     simp only [Cst.parse] at hp
     cases hpl : l.parse with
     | error err => rw [hpl] at hp; cases hp
@@ -645,7 +658,9 @@ theorem cst_flat : (c : Cst) → c.wf = true → ∀ (e : Expr), c.parse = .ok e
       rw [hpl] at hp
       cases hpr : r.parse with
       | error err => rw [hpr] at hp; cases hp
-      | ok re => rw [hpr] at hp; injection hp with hp; subst hp; trivial
+      | ok re =>
+        rw [hpr] at hp; injection hp with hp; subst hp
+        exact ⟨cst_flat l hwf.1.1.1.1.1.1.1 le hpl, cst_flat r hwf.2 re hpr⟩
 theorem items_flat : (its : Items) → ∀ (m : Mode) (cg : Text) (st st' : SeqSt), its.wf m cg = true →
     its.parseSeq m st = .ok st' → allFlatClosed st.items → allFlatClosed st'.items
   | .nil, m, cg, st, st', _, hp, h => by
@@ -729,11 +744,15 @@ theorem inlineClean_of_flat : (e : Expr) → e.beforeFlatB = true → e.flatClos
     · exact h1
   | .wth .., h, _ => by simp [Expr.beforeFlatB] at h
   | .asrt .., h, _ => by simp [Expr.beforeFlatB] at h
-  | .sel .., h, _ => by simp [Expr.beforeFlatB] at h
-  | .selOr .., h, _ => by simp [Expr.beforeFlatB] at h
-  | .lam .., h, _ => by simp [Expr.beforeFlatB] at h
-  | .un .., h, _ => by simp [Expr.beforeFlatB] at h
-  | .bin .., h, _ => by simp [Expr.beforeFlatB] at h
+  | .sel e _ _ _ _ _, h, hf => inlineClean_of_flat e h hf
+  | .selOr e _ _ _ d _ _ _ _, h, hf => by
+    simp only [Expr.beforeFlatB, Bool.and_eq_true] at h
+    exact ⟨inlineClean_of_flat e h.1 hf.1, inlineClean_of_flat d h.2 hf.2⟩
+  | .lam _ _ _ _ body _ _, h, hf => inlineClean_of_flat body h hf
+  | .un _ e _ _ _ _, h, hf => inlineClean_of_flat e h hf
+  | .bin _ l r ogl rgl _ _, h, hf => by
+    simp only [Expr.beforeFlatB, Bool.and_eq_true, decide_eq_true_eq] at h
+    exact ⟨h.1.1.1, h.1.1.2, inlineClean_of_flat l h.1.2 hf.1, inlineClean_of_flat r h.2 hf.2⟩
 theorem allInlineClean_of_flat : (es : List Expr) → allBeforeFlatB es = true → allFlatClosed es → allInlineClean es
   | [], _, _ => trivial
   | e :: rest, h, hf => by
